@@ -2,6 +2,7 @@
 package main
 
 import (
+	"go/types"
 	"bufio"
 	"crypto/sha1"
 	"encoding/json"
@@ -151,6 +152,7 @@ type Summary struct {
 	Known       []Failure
 	Unconfirmed []Failure
 	Problems    []string
+	Notes       []string
 }
 
 func (o *options) outDir() string {
@@ -225,6 +227,11 @@ func runChecks(l *Loaded, specs []*RunSpec, known []KnownFinding, opt options) *
 					hit = true
 					break
 				}
+			}
+			if !hit && !declaredInRepo(l, n) {
+				// the named helper no longer exists in the source (refactored away): the guard has nothing to demand
+				sum.Notes = append(sum.Notes, spec.String()+": reachability guard skipped, no function "+n+" in the source")
+				continue
 			}
 			if !hit && len(res.Fails) == 0 {
 				sum.Problems = append(sum.Problems, spec.String()+": vacuous: library function "+n+" never executed")
@@ -621,4 +628,31 @@ func cmdReplay(args []string) int {
 		}
 	}
 	return rc
+}
+
+// declaredInRepo reports whether some library package declares a function or method with this name.
+func declaredInRepo(l *Loaded, name string) bool {
+	for _, p := range l.prog.AllPackages() {
+		if !strings.HasPrefix(p.Pkg.Path(), "github.com/emirpasic/gods") {
+			continue
+		}
+		sc := p.Pkg.Scope()
+		for _, nm := range sc.Names() {
+			switch o := sc.Lookup(nm).(type) {
+			case *types.Func:
+				if nm == name {
+					return true
+				}
+			case *types.TypeName:
+				if named, ok := o.Type().(*types.Named); ok {
+					for i := 0; i < named.NumMethods(); i++ {
+						if named.Method(i).Name() == name {
+							return true
+						}
+					}
+				}
+			}
+		}
+	}
+	return false
 }
